@@ -7,7 +7,8 @@ positive per-observation formulas inside PanelLikelihoodTrajectory, optionally
 under MonteCarlo with deterministic generators whose value encodes
 (individual index, draw index); non-contiguous tables; formulas with a row
 variable outside the trajectory; directed (seed-independent) cases that
-reproduce the recorded findings at every run (modes 'outside', 'hugeid').
+reproduce the recorded finding at every run (mode 'outside') and regression
+cases of the repaired contiguity count (mode 'hugeid', fix c6f7545: must hold).
 
 Monitors (biomon/oracle/c09_monitor.py, c09_ref.py):
  * contract on Database.panel / build_panel_map: individuals <-> map rows
@@ -71,7 +72,7 @@ RTOL, ATOL = 1e-9, 1e-11
 # operators the engine refuses (or warns about) when derivatives are requested
 NONDIFF = {'belongs', 'and', 'or', 'eq', 'ne', 'le', 'ge', 'lt', 'gt', 'min', 'max'}
 KNOWN_OUTSIDE = 'row-variable-outside-trajectory-accepted-result-depends-on-row-order'
-KNOWN_HUGEID = 'valid-panel-table-refused-integer-ids-beyond-2p53-merged-by-float-comparison'
+REGRESSION_HUGEID = 'valid-panel-table-refused-integer-ids-beyond-2p53-merged-by-float-comparison'
 
 
 def cases(seed, tier):
@@ -213,7 +214,7 @@ def _database(cx, which, genlog):
         ids = spec['ids']
         merged = all(isinstance(v, int) for v in ids) and len({float(v) for v in ids}) < len(ids)
         cx.rec.c('valid_table_refused')
-        cx.viol(KNOWN_HUGEID if merged else 'valid-panel-table-refused',
+        cx.viol(REGRESSION_HUGEID if merged else 'valid-panel-table-refused',
                 f'table {which}: panel() raised BiogemeError on a table whose blocks are contiguous'
                 + (' (integer ids beyond 2^53, some pairwise equal once converted to float64)' if merged else '') + f': {e}',
                 table=tab)
@@ -244,11 +245,16 @@ def _evaluate_table(cx, which):
     # rows removed between panel() and the model: the map must follow
     if spec['remove']:
         col, val = spec['remove']['col'], spec['remove']['value']
+        how = spec['remove'].get('how', 'api')
         try:
-            database.remove(Variable(col) == val)
+            if how == 'api':
+                database.remove(Variable(col) == val)
+            else:
+                database.data.drop(database.data[database.data[col] == val].index, inplace=True)
         except BaseException as e:  # noqa
-            rec.inconc(f'Database.remove on a panel table raised {type(e).__name__}: {e}')
+            rec.inconc(f'removing rows ({how}) from a panel table raised {type(e).__name__}: {e}')
             return None
+        rec.c('rows_removed_after_panel_' + how)
         keep = [t for t in range(len(tab[idcol])) if tab[col][t] != val]
         tab = {c: [v[t] for t in keep] for c, v in tab.items()}
         rec.c('rows_removed_after_panel')
@@ -482,6 +488,9 @@ def run_case(case):
             if not close(ra['ll'], rb['ll'], 1e-10, 1e-12):
                 cx.viol('order-of-blocks-or-of-rows-inside-a-block-changes-the-loglikelihood',
                         f'log likelihood {ra["ll"]!r} on table a, {rb["ll"]!r} on table b', table_a=ra['tab'], table_b=rb['tab'])
+    if spec['mode'] == 'hugeid':
+        # regression of the repaired contiguity count (fix c6f7545): both block orders must be accepted and agree
+        rec.c('regression_hugeid_both_orders_accepted' if (ra and rb) else 'regression_hugeid_not_fully_evaluated')
     r0 = ra or rb
     if r0:
         sizes = [len(g) for g in r0['refs']['P']['groups'].values()]
@@ -532,6 +541,7 @@ def finalize(cov, tier):
         'handover_draws_checked', 'handover_sample_size_checked', 'generator_calls_seen',
         'permutation_partner_compared', 'loglikelihood_compared', 'get_value_c_compared',
         'montecarlo_cases', 'plain_trajectory_cases', 'cases_with_rows_removed_after_panel',
+        'rows_removed_after_panel_api', 'rows_removed_after_panel_direct',
         'noncontiguous_table_refused', 'outside_refused_single-formula',
         'individuals_1', 'individuals_2_to_12', 'individuals_13_to_40', 'tables_with_singletons_only',
         'tables_mixing_singletons_and_longer_blocks', 'tables_over_16_rows',
@@ -543,6 +553,9 @@ def finalize(cov, tier):
             out.append(f'monitor / workload class never observed: {k}')
     if tier == 'thorough' and cov.get('individuals_41_to_150', 0) == 0:
         out.append('workload class never observed: individuals_41_to_150')
+    if cov.get('mode_hugeid', 0) and cov.get('regression_hugeid_both_orders_accepted', 0) == 0 \
+            and cov.get('valid_table_refused', 0) == 0:
+        out.append('regression cases of the repaired contiguity count were never evaluated on both block orders')
     if cov.get('threads_1', 0) == 0 or sum(v for k, v in cov.items() if k.startswith('threads_') and k != 'threads_1') == 0:
         out.append('thread counts: need single- and multi-threaded evaluations')
     return out
